@@ -10,7 +10,8 @@ RULE = (
     "view.* operations on byte strings of 0..300 bytes: all 65536 (type, code) pairs of ICMPv4 and ICMPv6 with a fixed "
     "tail, every assigned pair at every length 0..44, noise with type/code/length-unit bytes drawn from assigned values, "
     "their neighbours and random values; NDP option areas built from valid options with perturbed length units and "
-    "truncations plus exhaustive areas over an option type x unit alphabet; every IGMP type at lengths 0..20; ARP with "
+    "truncations plus exhaustive areas of up to 2 (thorough: 3) options over an option type x length unit x present size alphabet; "
+    "each per-type option from_slice on structured and noise inputs; every IGMP type at lengths 0..20; ARP with "
     "hardware/protocol type and size fields from matching, neighbouring and random values at lengths need-9..need+8. "
     "non-trivial = distinct op line whose input has at least 8 bytes (NDP option ops: at least 2 bytes)"
 )
@@ -67,6 +68,11 @@ C_INTEREST = list(range(0, 18)) + [127, 128, 254, 255]
 
 def _data(h):
     return b"" if h == "-" else bytes.fromhex(h)
+
+
+def _input(c):
+    """the byte string of a case, read from its first op line (the shrinker edits lines, not meta)"""
+    return _data(c.lines[0].split("\t")[-1])
 
 
 def be(d, o, n):
@@ -171,7 +177,7 @@ def generate(rng, tier):
             if n >= 7:
                 yield _case("icmp6_payload", base[:n])
     # -- 3. noise with interesting type/code bytes, 0..300 bytes
-    nrand = 6000 if quick else 300000
+    nrand = 6000 if quick else 150000
     for _ in range(nrand):
         n = rng.choice([rng.randrange(0, 301), rng.randrange(0, 48), 8, 20, 19, 21])
         for kind, tint in (("icmp4", T4_INTEREST), ("icmp6", T6_INTEREST)):
@@ -179,7 +185,7 @@ def generate(rng, tier):
             d = (bytes([t, c]) + rbytes(rng, max(0, n - 2)))[:n]
             yield _case(kind, d)
     # -- 4. NDP messages: fixed part + generated option area
-    nndp = 6000 if quick else 200000
+    nndp = 6000 if quick else 150000
     for _ in range(nndp):
         t = rng.choice([133, 134, 135, 136, 137])
         c = 0 if rng.random() < 0.9 else rng.choice([1, 255])
@@ -189,7 +195,7 @@ def generate(rng, tier):
             body = body[: rng.randrange(0, fixed + 3)]
         yield _case("icmp6_payload", bytes([t, c]) + rbytes(rng, 6) + body)
     # -- 5. NDP option areas
-    nareas = 10000 if quick else 400000
+    nareas = 10000 if quick else 300000
     for _ in range(nareas):
         yield _case("ndp_opts", gen_ndp_area(rng))
     for _ in range(1500 if quick else 50000):
@@ -198,6 +204,10 @@ def generate(rng, tier):
     types = [0, 1, 2, 3, 4, 5, 6, 255]
     units = [0, 1, 2, 4, 5]
     present = [1, 2, 4]
+    if not quick:
+        # depth 3: 84^3 = 592 704 areas
+        types = [0, 1, 2, 3, 4, 5, 255]
+        units = [0, 1, 2, 4]
     slots = [(t, u, p) for t in types for u in units for p in present]
     depth = 2 if quick else 3
     for k in range(1, depth + 1):
@@ -261,8 +271,7 @@ def generate(rng, tier):
 
 
 def is_trivial(c):
-    d = c.meta.get("d", "-")
-    n = 0 if d == "-" else len(d) // 2
+    n = len(_input(c))
     if c.meta.get("k") in ("ndp_opts", "ndp_opt"):
         return n < 2
     return n < 8
@@ -443,7 +452,7 @@ def check_ndp_iteration(it_text, area, base, spec_text, out):
 
 
 def _icmp(c, v6, out):
-    d = _data(c.meta["d"])
+    d = _input(c)
     n = len(d)
     impl, spec = c.impl[0], c.model[1]
     sl, hd = impl.split(";hd=", 1)
@@ -492,7 +501,7 @@ def _icmp(c, v6, out):
 
 
 def _icmp6_payload(c, out):
-    d = _data(c.meta["d"])
+    d = _input(c)
     n = len(d)
     impl, spec = c.impl[0], c.model[1]
     if spec == "short":
@@ -553,8 +562,8 @@ def _icmp6_payload(c, out):
 
 
 def _ndp_opt(c, out):
-    d = _data(c.meta["d"])
-    k = c.meta["kind"]
+    d = _input(c)
+    k = c.lines[0].split("\t")[1]
     impl = c.impl[0]
     n = len(d)
     if k == "header":
@@ -586,7 +595,7 @@ def _tenths(code):
 
 
 def _igmp(c, out):
-    d = _data(c.meta["d"])
+    d = _input(c)
     n = len(d)
     impl, spec = c.impl[0], c.model[1]
     rec = c.meta["k"] == "igmp_record"
@@ -623,7 +632,7 @@ def _igmp(c, out):
 
 
 def _arp(c, out):
-    d = _data(c.meta["d"])
+    d = _input(c)
     n = len(d)
     impl, spec = c.impl[0], c.model[1]
     parts = dict(p.split("=", 1) for p in impl.split(";"))
@@ -679,6 +688,9 @@ def oracle(c):
             if mk in impl:
                 out.append(("impl-" + ("panic-or-fault" if mk in ("panic", "fault(") else "self-inconsistent"), {"marker": mk, "impl": impl[:300]}))
                 return out
+        if len(c.lines) > 1 and c.lines[1].split("\t")[1:] != c.lines[0].split("\t")[1:]:
+            # (a shrinking candidate that cut only one of the two lines: not a case of this property)
+            return [("inconsistent-case", {"lines": [l[:80] for l in c.lines]})]
         if len(c.lines) > 1 and (c.model[1] is None or c.model[1] == "bad-op"):
             return [("spec-missing", {"line": c.lines[1][:100]})]
         if k == "icmp4":
@@ -688,7 +700,7 @@ def oracle(c):
         elif k == "icmp6_payload":
             _icmp6_payload(c, out)
         elif k == "ndp_opts":
-            check_ndp_iteration(impl, _data(c.meta["d"]), 0, c.model[1], out)
+            check_ndp_iteration(impl, _input(c), 0, c.model[1], out)
         elif k == "ndp_opt":
             _ndp_opt(c, out)
         elif k in ("igmp", "igmp_record"):
